@@ -22,6 +22,7 @@ import WW.Cw.Arith
 import WW.Gen.Constants
 import WW.Model.CpSwap
 import WW.Model.Slippage
+import WW.Model.Stable2
 namespace WW.Pair
 
 /-- one asset of the pair -/
@@ -175,6 +176,31 @@ def provideShares (sup p0 p1 d0 d1 : Nat) (tol : Option Nat) : Res (Nat × Nat) 
 /-- the constant-product pair -/
 def cpCurve : Curve :=
   { swap := fun f _ op ap off => cpSwap op ap off f, shares := provideShares }
+
+/-- LP amounts of the `PairType::StableSwap` arm of `provide_liquidity`: first deposit
+    `compute_d(amp, d0, d1) − 2·1000` (saturating; `2·1000` locked in the pair), later deposits
+    `compute_lp_mint_amount_for_stableswap_deposit(..).unwrap()` followed by the slippage assertion -/
+def ssShares (amp : Nat) (sup p0 p1 d0 d1 : Nat) (tol : Option Nat) : Res (Nat × Nat) :=
+  if sup = 0 then do
+    let d ← computeD amp d0 d1
+    let d ← to128 d
+    let minLp := Gen.MINIMUM_LIQUIDITY_AMOUNT * 2
+    let share := d - minLp
+    guardErr (decide (share ≠ 0))
+    pure (share, minLp)
+  else do
+    let m ← ssLpMint amp d0 d1 p0 p1 sup
+    match m with
+    | none => .panic
+    | some share => do
+      pairAssertSlippage tol d0 d1 p0 p1 .stableSwap share sup
+      pure (share, 0)
+
+/-- the two-asset stableswap pair (amplification `amp`, asset decimals `dec0`, `dec1`) -/
+def ssCurve (amp dec0 dec1 : Nat) : Curve :=
+  { swap := fun f dir op ap off =>
+      if dir then ssSwap op ap off f amp dec1 dec0 else ssSwap op ap off f amp dec0 dec1
+    shares := ssShares amp }
 
 def provide (cv : Curve) (s : St) (u rcv d0 d1 : Nat) (tol : Option Nat) : Res St := do
   guardErr (decide (u < s.users.length ∧ rcv < s.users.length))
